@@ -291,7 +291,12 @@ def classify_deep(ctx, origins):
                 elif c.kind == "agg" and c.extra is not None and hasattr(c.extra, "rv"):
                     for a in c.extra.rv.ops:
                         work.extend(ctx.origins.of_operand(a))
-            names = " ".join(x.key[1] for x in deep if x.kind == "call")
+            names = " ".join(x.key[1] for x in deep if x.kind == "call") + " " + \
+                " ".join(str(x.key[2]) for x in deep if x.kind == "agg")
+            for x in list(deep):
+                if x.kind == "bin" and x.extra is not None:
+                    for a in x.extra.rv.ops:
+                        deep |= set(ctx.origins.of_operand(a))
             if any(x.fields[-1:] == ("version",) for x in deep) and ("Range" in names or "range" in names or "rev" in names):
                 return "VERSION"
         if o.fields[-1:] == ("name",) or (o.kind in ("param", "upvar") and o.key[1] in ("name", "role", "role_name", "targets_role")):
